@@ -220,7 +220,7 @@ def _report(ctx, bad, test, inp):
     recs, rc, out = ctx.run_harness('./internal/verifh/c14', test, inp=show, timeout=1200)
     det = {x['id']: x for x in recs if x.get('kind') == 'rec'}
     for (r, cls) in bad:
-        d = det.get(r['id'], {})
+        d = r if r.get('texts') else det.get(r['id'], {})
         detail = {'src': r.get('src'), 'id': r['id'], 'kinds': r.get('kinds'), 'lines': r['lines'], 'vid': r['vid'], 'obs': r['obs'],
                   'texts': d.get('texts'), 'results': d.get('details')}
         if cls >= 1:
